@@ -495,14 +495,27 @@ def run_history(ctx, st, make, calls, kind, shape_id):
     state0 = _random.getstate()
     # the last call on a pristine object BEFORE the history (its result is then edited by the caller): process-wide
     # hidden state (memo tables holding a dictionary that a later call or the caller edits) shows up as a difference
-    first = outcome(calls[-1][1], make(), edit=True)
-    shared = make()
+    try:
+        first = outcome(calls[-1][1], make(), edit=True)
+        shared = make()
+    except Exception as ex:
+        # the factory is a library call on a constant that is built thousands of times in this run: if it starts to
+        # raise, earlier calls (or edits of their results) changed what the library does with the same input
+        ctx.decided()
+        ctx.violation('result-depends-on-earlier-calls-or-on-edits-of-earlier-results',
+                      {'history': labels, 'kind': kind, 'shape': shape_id,
+                       'building_the_shared_object_raises': f'{type(ex).__name__}: {ex}'[:300]})
+        st.history = None
+        return
     pristine_dump = deep(shared)
     res = None
     for lab, fn in calls:
         res = outcome(fn, shared, edit=True)
     # (d) the last call on a pristine object
-    fresh = outcome(calls[-1][1], make())
+    try:
+        fresh = outcome(calls[-1][1], make())
+    except Exception as ex:
+        fresh = ('factory-raises', type(ex).__name__)
     ctx.decided()
     if len(calls) > 1 and res != fresh:
         ctx.violation('result-depends-on-history', {'history': labels, 'kind': kind, 'shape': shape_id,
